@@ -2,10 +2,12 @@
 import re
 from ..mir import Callee, Resolver, fmt, literals, walk, strip_sites as s
 from . import prune
+from . import helpers
 from .prune import is_call
 
 LEVEL = 'other'
 RULES = {
+    'C01.R5': helpers.RULE_TEXT,
     'C01.R1': 'layer dispatch table: each Layer variant reaches its own generator with its own payload and the running dimension; constants by value; composed receiver is the tree being built',
     'C01.R2': 'running dimension = output dimension of the tree: arms whose generator changes the dimension assign it (Linear -> outdim(payload), heads with constant terminals -> 1), the others do not',
     'C01.R4': 'inherited necessary conditions (shared rules): the evaluator tests mat·x - bias <= 0 (closed) and follows the label it computes; the elimination run between layers removes only Infeasible paths and never the last child of a decision; every generator of the dispatch table is its activation / head (C17.R1-R3 instances of those generators)',
@@ -13,7 +15,7 @@ RULES = {
 }
 CONTROL_REV = '078b142'  # thorough tier: the rules must still report the defects found (and since fixed) on the original tree
 CONTROLS = [('C01.R2', 'afftree_from_layers_generic#dim:Argmax'), ('C01.R2', 'afftree_from_layers_generic#dim:ClassChar')]
-FLOORS = {'C01.R1': 7, 'C01.R2': 7, 'C01.R3': 1, 'C01.R4': 26}
+FLOORS = {'C01.R5': 11, 'C01.R1': 7, 'C01.R2': 7, 'C01.R3': 1, 'C01.R4': 26}
 EXPLANATION = ('C01 is the composition of C02 (apply_func/compose), C03 (elimination), C17 (schema trees) and the clause decided here: the distiller feeds each layer to the right '
                'generator with the right arguments and keeps its running dimension equal to the tree\'s output dimension.')
 DOES_NOT_DECIDE = 'numeric agreement (delegated to C02/C03/C17 and their limits)'
@@ -103,6 +105,7 @@ def shared(ctx):
 
 
 def run(ctx):
+    helpers.run_for(ctx)
     F = ctx.facts
     b = ctx.body('C01.R1', 'afftree_from_layers_generic')
     if b is None:
